@@ -12,40 +12,41 @@ namespace Copia.C09
 open Copia.Shell
 
 /-- the stages of the command in the source on this run: stage the stream, compare the staged size with
-the announced size, rename over the destination, stamp the mtime — joined by `&&` only -/
+the announced size, refuse a destination that is a directory (D20: `mv` would move the file INTO it and
+succeed), rename over the destination, stamp the mtime — joined by `&&` only -/
 theorem source_push_command_is_modelled :
     Copia.Gen.pushStages =
-      ["cat > $'{tmp_escaped}'", "[ \"$(wc -c < $'{tmp_escaped}')\" -eq {file_size} ]",
+      ["cat > $'{tmp_escaped}'", "[ \"$(wc -c < $'{tmp_escaped}')\" -eq {file_size} ]", "[ ! -d $'{escaped}' ]",
        "mv -f $'{tmp_escaped}' $'{escaped}'", "touch -d @{t} $'{escaped}'"] ∧
-    Copia.Gen.pushConns = [0, 1, 1, 1] := by decide
+    Copia.Gen.pushConns = [0, 1, 1, 1, 1] := by decide
 
 /-- C09 (push, what the orphaned remote shell does after the sender died — or at any other time): for
-EVERY way the four stages can succeed or fail, the rename over the destination (stage 2) runs only after
-the stream was staged and the size test passed, and the destination's mtime is stamped (stage 3) only
-after that rename succeeded — a rejected upload never renames and never stamps, so the old file keeps
+EVERY way the five stages can succeed or fail, the rename over the destination (stage 3) runs only after
+the stream was staged, the size test passed and the destination is not a directory, and the destination's
+mtime is stamped (stage 4) only after that rename succeeded — a rejected upload never renames and never stamps, so the old file keeps
 its old bytes AND its old mtime and the next run sends it again. -/
 theorem push_command_order (ok : Nat → Bool) :
-    (2 ∈ (eval ok Copia.Gen.pushConns).1 → ok 0 = true ∧ ok 1 = true) ∧
     (3 ∈ (eval ok Copia.Gen.pushConns).1 → ok 0 = true ∧ ok 1 = true ∧ ok 2 = true) ∧
-    (∀ j, j ∈ (eval ok Copia.Gen.pushConns).1 → j < 4) := by
+    (4 ∈ (eval ok Copia.Gen.pushConns).1 → ok 0 = true ∧ ok 1 = true ∧ ok 2 = true ∧ ok 3 = true) ∧
+    (∀ j, j ∈ (eval ok Copia.Gen.pushConns).1 → j < 5) := by
   rw [source_push_command_is_modelled.2]
-  have h := (allAnd_chain ok [1, 1, 1] ⟨rfl, rfl, rfl, trivial⟩).2
-  refine ⟨fun h2 => ?_, fun h3 => ?_, fun j hj => ?_⟩
-  · have := ((h 2).mp h2).2
-    exact ⟨this 0 (by omega), this 1 (by omega)⟩
+  have h := (allAnd_chain ok [1, 1, 1, 1] ⟨rfl, rfl, rfl, rfl, trivial⟩).2
+  refine ⟨fun h3 => ?_, fun h4 => ?_, fun j hj => ?_⟩
   · have := ((h 3).mp h3).2
     exact ⟨this 0 (by omega), this 1 (by omega), this 2 (by omega)⟩
+  · have := ((h 4).mp h4).2
+    exact ⟨this 0 (by omega), this 1 (by omega), this 2 (by omega), this 3 (by omega)⟩
   · exact ((h j).mp hj).1
 
 /-- C04 / C09 (a remote failure is reported): the command's exit status is 0 iff every stage succeeded —
-staging, size test, rename and stamp; `transfer_file_to_remote` counts the file as sent on status 0 only. -/
+staging, size test, not-a-directory test, rename and stamp; `transfer_file_to_remote` counts the file as sent on status 0 only. -/
 theorem push_command_status (ok : Nat → Bool) :
-    (eval ok Copia.Gen.pushConns).2 = true ↔ (ok 0 = true ∧ ok 1 = true ∧ ok 2 = true ∧ ok 3 = true) := by
+    (eval ok Copia.Gen.pushConns).2 = true ↔ (ok 0 = true ∧ ok 1 = true ∧ ok 2 = true ∧ ok 3 = true ∧ ok 4 = true) := by
   rw [source_push_command_is_modelled.2]
-  rw [(allAnd_chain ok [1, 1, 1] ⟨rfl, rfl, rfl, trivial⟩).1]
+  rw [(allAnd_chain ok [1, 1, 1, 1] ⟨rfl, rfl, rfl, rfl, trivial⟩).1]
   simp [List.range_succ, List.all_cons, Bool.and_eq_true, and_assoc]
 
-/-- the command of seed C09-G (`… && mv … || rm -f tmp && touch -c …`): a failed size test still stamps
+/-- the command of seed C09-G (then four stages: `… && mv … || rm -f tmp && touch -c …`): a failed size test still stamps
 the OLD destination with the source's mtime (kernel-checked run of the same evaluator) -/
 theorem or_cleanup_stamps_after_a_rejected_upload :
     4 ∈ (eval (fun i => i != 1) [0, 1, 1, 2, 1]).1 ∧ 2 ∉ (eval (fun i => i != 1) [0, 1, 1, 2, 1]).1 := by decide
